@@ -147,7 +147,7 @@ def run(ctx):
                     stats["CFGs meeting SingleDef and PhiComplete"] += 1
             else:
                 versioned = [t for t in hyp.split(" | ")[0].split()[1:] if "." in t]
-                stats["CFGs with a variable assigned by several substitutions (signals/components: outside the path theorem)"] += 1
+                stats["CFGs not meeting SingleDef (an unversioned variable both assigned whole and updated element-wise: outside the path theorem)"] += 1
                 if versioned:
                     # a versioned (SSA) local with two definitions: clause (a) of C14 is broken
                     ctx.violation("ssa-local-defined-twice", {"stage": "hypothesis SingleDef of C06_path_sound on a real SSA dump",
